@@ -523,7 +523,7 @@ var c19EmptyEnv = []c19EnvWant{
 func init() {
 	run.Register(&run.Prop{
 		ID: "C19", Level: "exploration", MinNontrivial: 2000,
-		Rule: "ambient: batches of option-less programs generated over every name/arity reported by `builtins` at run time (arguments from small pools, 24 program shapes, import/include prefixes, capability-bearing pseudo terms; the clock/time-zone builtins now/localtime/strflocaltime/strptime-%Z are left out as the statement allows) are compiled and run in-process under two generated ambient states (complete environment incl. HOME/PATH/JQ_*/random names, working directory, planted ~/.jq, .jq, module and JSON files, content of fd 0); everything observable (compile error, values, error) must be identical, contain no planted marker, and fd 0 must not be consumed. denied: each capability term (input(s), import/include, modulemeta, input_filename, $__loc__, get_search_list, $__prog_args, debug, stderr, ~/.jq definitions, …) in 9 contexts must yield no value and an error; 25 env/$ENV programs must show the empty object. strace: a re-executed helper process runs generated option-less programs between two sentinel syscalls under `strace -f -e trace=%file,%network,%process,read…`; deny-by-default scan of the window (only thread creation/exit and SIGURG preemption are allowed; /etc/localtime and zoneinfo only in the session that runs time-zone builtins); a control session with planted accesses proves the scan can see them. grants: WithVariables (generated name lists incl. duplicates and $ENV, value expressions with an independent evaluator, too few/too many values, re-use and interleaving of one Code), WithInputIter (instrumented iterator; table of programs with hand-derived outputs and draw counts; generated programs in which every `input` is bracketed by logging callbacks: log must be a sequence of tick,Next(v),tock(v) triples), WithEnvironLoader (generated pair lists incl. '=' in values, empty values, duplicates, entries without '=' or with an empty name; real process environment planted with conflicting values). callback≡def: generated registrations (arity ranges in 0..30, overlapping registrations of one name, 9 plain and 6 iterator behaviours) and calling contexts (plain, try, path/|=/paths/del/pick, first/limit/label/break/ //, ?//, reduce/foreach, generator/erroring/empty/nested arguments); the program is run with the Go callbacks and with `def f(a0;…;an): an as $an | … | a0 as $a0 | BODY;` prepended; event lists (values up to and including the first uncaught error) must agree. Non-trivial = the program compiled and produced at least one event (ambient, callback≡def) or the case exercised a grant.",
+		Rule: "ambient: batches of option-less programs generated over every name/arity reported by `builtins` at run time (arguments from small pools, 24 program shapes, import/include prefixes, capability-bearing pseudo terms; the clock/time-zone builtins now/localtime/strflocaltime/strptime-%Z are left out as the statement allows) are compiled and run in-process under two generated ambient states (complete environment incl. HOME/PATH/JQ_*/random names, working directory, planted ~/.jq, .jq, module and JSON files, content of fd 0); everything observable (compile error, values, error) must be identical, contain no planted marker, and fd 0 must not be consumed. denied: each capability term (input(s), import/include, modulemeta, input_filename, $__loc__, get_search_list, $__prog_args, debug, stderr, ~/.jq definitions, …) in 9 contexts must yield no value and an error; 25 env/$ENV programs must show the empty object. strace: a re-executed helper process runs generated option-less programs between two sentinel syscalls under `strace -f -e trace=%file,%network,%process,read…`; deny-by-default scan of the window (only thread creation/exit and SIGURG preemption are allowed; /etc/localtime and zoneinfo only in the session that runs time-zone builtins); a control session with planted accesses proves the scan can see them. grants: WithVariables (generated name lists incl. duplicates and $ENV, value expressions with an independent evaluator, too few/too many values, re-use and interleaving of one Code), WithInputIter (instrumented iterator; table of programs with hand-derived outputs and draw counts; generated programs in which every `input` is bracketed by logging callbacks: log must be a sequence of tick,Next(v),tock(v) triples), WithEnvironLoader (generated pair lists incl. '=' in values, empty values, duplicates, entries without '=' or with an empty name; real process environment planted with conflicting values). callback≡def: generated registrations (arity ranges in 0..30, overlapping registrations of one name, 9 plain and 6 iterator behaviours) and calling contexts (plain, try, path/|=/paths/del/pick, first/limit/label/break/ //, ?//, reduce/foreach, generator/erroring/empty/nested arguments); the program is run with the Go callbacks and with `def f(a0;…;an): an as $an | … | a0 as $a0 | BODY;` prepended; event lists (values up to and including the first uncaught error) must agree. history: one compiled Code is run on an input A and then on a list of further inputs; every result must be what a freshly compiled Code gives for that input alone (regular-expression programs taking subject, pattern and flags from the input, over all 408 (subject, pattern, flags) triples incl. pattern/flag pairs whose concatenations coincide, each as the first input; generated programs over small inputs). modvars: generated WithVariables name lists x module graphs (aliased import, include, import through another module, shadowing inside the module): the values passed to Run are what the names mean inside the modules too. Non-trivial = the program compiled and produced at least one event (ambient, callback≡def) or the case exercised a grant.",
 		Assumptions: []string{
 			"the library reaches ambient state only through the Go standard library's process-wide facilities (os.Getenv/Environ, working directory, file descriptors, files, clock), so switching them in-process between two runs is equivalent to two child processes; the strace session covers anything else",
 			"a worker runs one case at a time, so mutating the process environment / cwd / fd 0 inside a case is safe",
@@ -537,6 +537,8 @@ func init() {
 			c19BodyStrace(c)
 			c19BodyGrants(c)
 			c19BodyCBDef(c)
+			c19BodyHistory(c)
+			c19BodyModVars(c)
 		},
 	})
 }
